@@ -30,6 +30,7 @@ func c17(c *Ctx) {
 	c17IPP(c)
 	c17NoListAliasing(c)
 	decoderErrorSticky(c, "decoder-error-sticky")
+	c17EncoderWholeValue(c)
 }
 
 func c17Decoder(c *Ctx) {
